@@ -682,6 +682,22 @@ func genC15H264(x *Ctx) {
 			})
 		}
 	}
+	// (a') a LARGE abandoned unit: all fragments of a unit of 70 000 bytes (quick) / of 2^20-16 and
+	//      2^20+4000 bytes (thorough) except the end fragment, then an intact fragmented frame — a
+	//      bound on the reassembly buffer must not make the next start fragment fail (seed C15-r2-3)
+	sizes := []int{70000}
+	if x.Thorough() {
+		sizes = append(sizes, 1<<20-16, 1<<20+4000)
+	}
+	for _, size := range sizes {
+		size := size
+		x.Case(func(c *Case) {
+			pay := &codecs.H264Payloader{}
+			big := pay.Payload(1200, append([]byte{0, 0, 1}, h264Nal(c.R, 5, size)...))
+			c.Tag("large-abandoned-unit")
+			runH264C15(c, c.R.Bool(), big[:len(big)-1], h264Frame(c.R, 12))
+		})
+	}
 	// (b) arbitrary byte strings as prehistory, then an intact frame
 	for i, n := 0, x.N(15000, 300000); i < n; i++ {
 		x.Case(func(c *Case) {
